@@ -22,8 +22,13 @@ def show(rec, subject_units):
     return "/%s/%s on %r" % (wire.from_units(rec["src"]), flag_text(rec["fl"]), wire.from_units(subject_units))
 
 
+def cpu():
+    t = os.times()
+    return t.children_user + t.children_system + t.user + t.system
+
+
 def run(rep):
-    t0 = time.time()
+    t0, c0 = time.time(), cpu()
     # 1. model-check the laws of RegexSem while TLC enumerates the pattern space
     res = tlc.run(rep.pid, "C09", ENUM_CFG, env={"TIER": rep.tier}, timeout=2400, tag="enum")
     rep.add_tlc("C09.Enum+Laws(RegexSem)", res)
@@ -45,7 +50,7 @@ def run(rep):
         fams[p["fam"]] = fams.get(p["fam"], 0) + 1
     rep.spaces.append({"space": "pattern families (operator nodes x atom set) x all subjects of the named set, TLC-enumerated",
                        "patterns": len(pats), "families": fams, "pairs": pairs, "complete": True})
-    rep.notes["enum_wall_s"] = round(time.time() - t0, 1)
+    rep.notes["enum_wall_cpu_s"] = [round(time.time() - t0, 1), round(cpu() - c0, 1)]
     judge_patterns(rep, pats, subsets, "exh")
     if rep.tier == "thorough":
         random_part(rep, subsets)
@@ -63,16 +68,16 @@ def judge_patterns(rep, pats, subsets, tag):
         json.dump(subsets, f)
     cases = []
     for p in pats:
-        c = {"id": p["id"], "src": p["src"], "fl": flag_text(p["fl"]), "lit": p.get("lit", p["fam"] in ("full0", "full1", "bref", "mix0", "random"))}
+        c = {"id": p["id"], "src": p["src"], "fl": flag_text(p["fl"]), "lit": bool(p["src"]) and p.get("lit", p["fam"] in ("full0", "full1", "bref", "mix0", "random"))}
         if p.get("sl") is not None:
             c["sl"] = p["sl"]
         else:
             c["subs"] = p["subs"]
         cases.append(c)
-    t1 = time.time()
+    t1, c1 = time.time(), cpu()
     results = engine.run_cases(rep.pid, cases, driver="checks.c09_driver:pattern_driver", tag="eng_" + tag,
                                extra_env={"C09_SUBJECTS": spath})
-    rep.notes["engine_wall_s_" + tag] = round(time.time() - t1, 1)
+    rep.notes["engine_wall_cpu_s_" + tag] = [round(time.time() - t1, 1), round(cpu() - c1, 1)]
     byid = {p["id"]: p for p in pats}
     recs, over = [], 0
     for r in results:
@@ -86,13 +91,14 @@ def judge_patterns(rep, pats, subsets, tag):
         rep.notes["over_budget_" + tag] = over
         if tag == "exh":
             raise Machinery("%d enumerated patterns exhausted the step budget on short subjects" % over)
-    t2 = time.time()
+    t2, c2 = time.time(), cpu()
     verdicts, st, tr, wall = tlc.judge(rep.pid, "C09", recs, JUDGE_CFG, tag="judge_" + tag, timeout=3000)
-    rep.notes["judge_wall_s_" + tag] = round(time.time() - t2, 1)
+    rep.notes["judge_wall_cpu_s_" + tag] = [round(time.time() - t2, 1), round(cpu() - c2, 1)]
     got = {v["id"]: v for v in verdicts}
     if len(got) != len(recs):
         raise Machinery("judge returned %d verdicts for %d records" % (len(got), len(recs)))
     n = 0
+    triage = open(os.path.join(workdir(rep.pid), "all_mismatches_%s.ndjson" % tag), "w") if os.environ.get("C09_TRIAGE") else None
     for rec in recs:
         v = got[rec["id"]]
         p = byid[rec["id"]]
@@ -104,11 +110,17 @@ def judge_patterns(rep, pats, subsets, tag):
             k = min(len(subs) - 1, 17)
             rep.sample({"case": show(p, subs[k]), "engine": rec["o"][rec["ch"][0][k] - 1], "verdict": "pass"})
         for b in v["bad"]:
-            k, c = b["k"] - 1, b["c"] - 1
-            act = rec["o"][rec["ch"][c][k] - 1]
-            rep.mismatch("%s [%s]" % (show(p, subs[k]), ["api", "script", "literal"][c]),
-                         {"expected": b["exp"], "actual": act, "case": {"ast": p["ast"], "fl": p["fl"], "subject": subs[k], "fam": p["fam"]}},
-                         dev=b["dev"])
+            k = b["k"] - 1
+            act = rec["o"][b["oi"] - 1]
+            for c in range(len(rec["ch"])):
+                if rec["ch"][c][k] != b["oi"]:
+                    continue
+                if triage:
+                    triage.write(json.dumps({"p": show(p, subs[k]), "c": c, "dev": b["dev"], "exp": b["exp"], "act": act, "fam": p["fam"],
+                                             "src": p["src"], "flt": flag_text(p["fl"]), "s": subs[k]}) + "\n")
+                rep.mismatch("%s [%s]" % (show(p, subs[k]), ["api", "script", "literal"][c]),
+                             {"expected": b["exp"], "actual": act, "case": {"ast": p["ast"], "fl": p["fl"], "subject": subs[k], "fam": p["fam"]}},
+                             dev=b["dev"])
     rep.add_judge(n, st, tr)
     rep.evaluations = (rep.evaluations or 0) + n
 
